@@ -24,6 +24,21 @@ Check (C09_vec_accepts_iff_every_account :
 Check (C09_vec_no_account_skipped :
   forall accs ls form k a, Forall acct_ok accs -> Forall layer_wf ls -> In a accs -> ~ Forall (layer_ok a) ls ->
     validate_vec accs ls form k <> Ok tt).
+Check (C09_set_accepts_iff_every_field :
+  forall fs, Forall (fun '(a, ls) => acct_ok a /\ Forall layer_wf ls) fs ->
+    (validate_fields fs = Ok tt <-> Forall (fun '(a, ls) => Forall (layer_ok a) ls) fs)).
+Check (C09_set_first_error :
+  forall fs e, validate_fields fs = Err e ->
+    exists pre a ls post,
+      fs = pre ++ (a, ls) :: post /\ Forall (fun '(a', ls') => validate_layers a' ls' = Ok tt) pre /\ validate_layers a ls = Err e).
+Check (C09_set_first_error_conv :
+  forall pre a ls post e,
+    Forall (fun '(a', ls') => validate_layers a' ls' = Ok tt) pre -> validate_layers a ls = Err e ->
+    validate_fields (pre ++ (a, ls) :: post) = Err e).
+Check (C09_set_check_stays_with_its_field :
+  forall fs i a ls k, Forall (fun '(a, ls) => acct_ok a /\ Forall layer_wf ls) fs ->
+    nth_error fs i = Some (a, ls) -> In (LAddress k) ls -> a_key a <> k ->
+    validate_fields fs <> Ok tt).
 
 Print Assumptions C09_fast_eq_iff.
 Print Assumptions C09_layer_exact.
@@ -34,3 +49,7 @@ Print Assumptions C09_optional_present.
 Print Assumptions C09_optional_placeholder.
 Print Assumptions C09_vec_accepts_iff_every_account.
 Print Assumptions C09_vec_no_account_skipped.
+Print Assumptions C09_set_accepts_iff_every_field.
+Print Assumptions C09_set_first_error.
+Print Assumptions C09_set_first_error_conv.
+Print Assumptions C09_set_check_stays_with_its_field.
